@@ -1496,6 +1496,7 @@ package desync
 //@ lemma @C20,C16 otherFormatNotOwn: forall s string :: isHex64(s) ==> !isHex64(s + ".cacnk") && !(hasSuffix(s, ".cacnk") && isHex64(trimSuffix(s, ".cacnk")))
 
 //@ ghost var $sftpHeld int
+//@ ghost var $istmp bool
 //@ func (s *SFTPStore) Prune
 //@   prop C16
 //@   safety none
@@ -1514,6 +1515,17 @@ package desync
 //@   oncall SFTPStore.GetChunk: requires $sftpHeld == 0
 //@   oncall SFTPStore.HasChunk: requires $sftpHeld == 0
 //@   oncall SFTPStore.StoreChunk: requires $sftpHeld == 0
+//# F40: abandoned temporary files of uploads are removed, by the path the walk is at, and nothing else is removed that way
+//@   ghost@after:isTempFile $istmp = $r0
+//@   oncall Remove: requires @C16 $istmp && $arg0 == path
+
+//# F40: names of the temporary files an upload writes to before it renames (chunk file name + a random number). What is
+//# recognised as one is longer than any chunk file name of this store's format, so it is never an own-format chunk file
+//@ func (s *SFTPStoreBase) isTempFile
+//@   prop C16
+//@   pure
+//@   loop 1: invariant true
+//@   ensures r0 ==> len(pbase(p)) > 64 + len(extOf(s.opt.Uncompressed))
 
 //@ spec func sftpName(c *SFTPStoreBase, id ChunkID) string = c.path + hexOf(id)[0:4] + "/" + hexOf(id) + extOf(c.opt.Uncompressed)
 
